@@ -40,6 +40,27 @@ Proof.
     contradiction.
 Qed.
 
+(* the lexer's delimiter class for the real predicate *)
+Lemma rust_delim_table c : is_token_delimiter rust_ws c = true <-> In c delim_table.
+Proof.
+  unfold is_token_delimiter, is_blank, is_operator_char.
+  rewrite orb_true_iff, andb_true_iff, negb_true_iff, mem_true_iff, rust_ws_table.
+  unfold operator_chars, ws_table, delim_table, c_nl, c_amp, c_lpar, c_rpar, c_semi, c_lt, c_gt, c_bar.
+  cbn [In]. rewrite N.eqb_neq. split.
+  - intros [H | [Hn H]]; repeat (destruct H as [H | H]; [subst; tauto | ]); contradiction.
+  - intros H.
+    repeat (destruct H as [H | H];
+            [subst c; first [left; tauto | right; split; [discriminate | tauto]] | ]).
+    contradiction.
+Qed.
+
+(* the blanks of the lexer: white space except the newline (so CR, VT and FF
+   are blanks) *)
+Lemma rust_blank_class c : is_blank rust_ws c = true <-> In c ws_table /\ c <> c_nl.
+Proof.
+  unfold is_blank. rewrite andb_true_iff, negb_true_iff, N.eqb_neq, rust_ws_table. tauto.
+Qed.
+
 (* ===================================================================== *)
 (* Part A: what the quoter lets through is inert                          *)
 (* ===================================================================== *)
@@ -63,6 +84,13 @@ Section Agreement.
     repeat match goal with H : _ /\ _ |- _ => destruct H end.
     repeat match goal with H : N.eqb c _ = false |- _ => rewrite H; clear H end.
     reflexivity.
+  Qed.
+
+  Lemma delimiter_needs_quoting c :
+    is_token_delimiter lws c = true -> char_needs_quoting qws c = true.
+  Proof.
+    intros H. destruct (char_needs_quoting qws c) eqn:E; [reflexivity|].
+    apply unquoted_char_plain in E. unfold plain_char in E. rewrite H in E. discriminate.
   Qed.
 
   Lemma has_pair_colon_tilde s : colon_tilde s = has_pair c_colon c_tilde s.
@@ -89,6 +117,23 @@ Section Agreement.
     cbn [after_first bracket_hazard]. destruct (N.eqb x c_lbrk) eqn:E.
     - intros Hm. rewrite Hm, andb_false_r. cbn. apply no_close_no_hazard; assumption.
     - intros H. cbn. apply IH; assumption.
+  Qed.
+
+  Lemma has_pair_at a b x y : has_pair a b (x ++ a :: b :: y) = true.
+  Proof.
+    induction x as [|c x IH]; cbn [app has_pair].
+    - rewrite !N.eqb_refl. reflexivity.
+    - rewrite IH. apply orb_true_r.
+  Qed.
+
+  Lemma bare_no_tilde_position_lemma s :
+    str_needs_quoting qws s = false ->
+    (forall t, s <> c_tilde :: t) /\ (forall a b, s <> a ++ c_colon :: c_tilde :: b).
+  Proof.
+    destruct s as [|c t]; [discriminate|]. unfold str_needs_quoting.
+    rewrite !orb_false_iff. intros [[[[[_ H2] _] H4] _] _]. split.
+    - intros t' E. injection E as -> _. discriminate H2.
+    - intros a b E. rewrite E, has_pair_at in H4. discriminate.
   Qed.
 
   Lemma bare_inert s : str_needs_quoting qws s = false -> inert lws s = true.
@@ -1132,6 +1177,156 @@ Section Reader.
     cbn [split_eq]. rewrite (no_lit_is_lit _ c_eq u H (or_introl eq_refl)).
     rewrite IH by (eapply no_lit_tail; eassumption). reflexivity.
   Qed.
+
+  (* Qname=Qvalue as an operand of a declaration utility *)
+  Lemma no_lit_split_eq_app a b : no_lit a -> split_eq (a ++ Lit c_eq :: b) = Some (a, b).
+  Proof.
+    induction a as [|u a IH]; intros H; [reflexivity|].
+    cbn [app split_eq]. rewrite (no_lit_is_lit _ c_eq u H (or_introl eq_refl)).
+    rewrite IH by (eapply no_lit_tail; eassumption). reflexivity.
+  Qed.
+
+  Lemma pair_word_reads qn n qv v :
+    reads_as qn n -> reads_as qv v ->
+    word_reads (qn ++ c_eq :: qv) (units_of qn n ++ Lit c_eq :: units_of qv v).
+  Proof.
+    intros Hn Hv. split.
+    - pose proof (spec_word_start qn n Hn) as Hs. destruct qn as [|c t]; [contradiction|]. exact Hs.
+    - intros r. rewrite <- app_assoc. rewrite (lex_spec qn n Hn). cbn [app].
+      rewrite (lex_lit c_eq) by apply lit_char_eq. rewrite (lex_spec qv v Hv).
+      rewrite cons_all_app. reflexivity.
+  Qed.
+
+  Lemma decl_pair_quoted qn n qv v :
+    reads_as qn n -> reads_as qv v ->
+    units_of qn n = Mark :: map Quo n ->
+    decl_word (qn ++ c_eq :: qv) (n ++ c_eq :: v).
+  Proof.
+    intros Hn Hv HU. exists (units_of qn n ++ Lit c_eq :: units_of qv v).
+    split; [apply pair_word_reads; assumption|].
+    assert (Hnl : no_lit (units_of qn n)) by (rewrite HU; apply no_lit_quos).
+    destruct (pair_multi_word qn n qv v Hn Hv (or_introl (no_lit_existsb _ c_lbrk Hnl)))
+      as [U' [[_ HL'] HR']].
+    (* the units are determined by the lexer *)
+    assert (U' = units_of qn n ++ Lit c_eq :: units_of qv v) as ->.
+    { pose proof (HL' []) as E1. destruct (pair_word_reads qn n qv v Hn Hv) as [_ HL].
+      pose proof (HL []) as E2. rewrite E1 in E2. cbn [Model.lex] in E2.
+      rewrite !cons_all_word, !app_nil_r in E2. injection E2 as ->. reflexivity. }
+    unfold read_decl, as_assign.
+    rewrite no_lit_split_eq_app by assumption.
+    set (W := units_of qn n ++ Lit c_eq :: units_of qv v) in *.
+    assert (Ht : tilde_front W = false) by (unfold W; rewrite HU; reflexivity).
+    rewrite Ht. rewrite HU. cbn [literal_of]. exact HR'.
+  Qed.
+
+  Lemma decl_pair_bare n qv v :
+    reads_as n n -> reads_as qv v ->
+    units_of n n = map Lit n -> mem c_eq n = false ->
+    decl_word (n ++ c_eq :: qv) (n ++ c_eq :: v).
+  Proof.
+    intros Hn Hv HU He. exists (units_of n n ++ Lit c_eq :: units_of qv v).
+    split; [apply pair_word_reads; assumption|].
+    destruct (units_facts n n Hn) as [N1 N2 N3 N4 N5 N6 N7].
+    destruct (units_facts qv v Hv) as [V1 V2 V3 V4 V5 V6 V7].
+    rewrite HU in *. destruct n as [|c t]; [contradiction N6; reflexivity|].
+    assert (Ht : tilde_front (map Lit (c :: t) ++ Lit c_eq :: units_of qv v) = false).
+    { unfold tilde_front. cbn [map app tilde_at]. rewrite (N7 _ _ eq_refl). reflexivity. }
+    unfold read_decl, as_assign. rewrite Ht, split_eq_assign by assumption. cbn beta iota.
+    pose proof (literal_of_lits (c :: t)) as L. cbn [map] in *. rewrite L.
+    unfold tilde_everywhere. rewrite V2, V3.
+    change (Lit c :: map Lit t) with (map Lit (c :: t)).
+    rewrite strip_assign_word, V1. reflexivity.
+  Qed.
+
+  (* ---- array assignments ------------------------------------------------------ *)
+
+  Lemma read_elems_sp fuel inp : read_elems lws fuel (c_sp :: inp) = read_elems lws fuel inp.
+  Proof.
+    destruct fuel; [reflexivity|]. cbn [read_elems skip_blanks].
+    change (N.eqb c_sp c_bs) with false. cbn iota. rewrite blank_sp. reflexivity.
+  Qed.
+
+  Lemma read_elems_end fuel rest : read_elems lws (S fuel) (c_rpar :: rest) = EOk [] rest.
+  Proof.
+    destruct (operator_char_facts c_rpar eq_refl) as (H1 & H2 & Hb).
+    cbn [read_elems skip_blanks]. rewrite H1, Hb, H2. reflexivity.
+  Qed.
+
+  Lemma read_elems_word fuel t U rest :
+    word_reads t U -> terminator_ok lws rest ->
+    read_elems lws (S fuel) (t ++ rest) =
+      match read_elems lws fuel rest with
+      | EOk ws rest' => EOk (U :: ws) rest'
+      | e => e
+      end.
+  Proof.
+    intros [Hs Hl] Ht. cbn [read_elems]. rewrite skip_blanks_start by assumption.
+    destruct t as [|c t']; [contradiction|]. destruct Hs as (H1 & H2 & H3 & H4).
+    cbn [app]. rewrite H3.
+    assert (Hnl : N.eqb c c_nl = false).
+    { destruct (N.eqb c c_nl) eqn:E; [|reflexivity]. apply N.eqb_eq in E. subst c. discriminate H4. }
+    assert (Hrp : N.eqb c c_rpar = false).
+    { destruct (N.eqb c c_rpar) eqn:E; [|reflexivity]. apply N.eqb_eq in E. subst c. discriminate H4. }
+    rewrite Hnl, Hrp, H4. change (c :: t' ++ rest) with ((c :: t') ++ rest).
+    rewrite Hl, lex_stop by assumption. rewrite cons_all_word, app_nil_r.
+    destruct rest as [|d r].
+    - rewrite andb_false_r. reflexivity.
+    - destruct Ht as (_ & Hlt & Hgt).
+      rewrite (proj2 (N.eqb_neq d c_lt) Hlt), (proj2 (N.eqb_neq d c_gt) Hgt), andb_false_r.
+      reflexivity.
+  Qed.
+
+  Lemma rpar_terminator rest : terminator_ok lws (c_rpar :: rest).
+  Proof. cbn. repeat split; discriminate. Qed.
+
+  Lemma spaced_rpar_terminator qs rest : terminator_ok lws (spaced qs ++ c_rpar :: rest).
+  Proof.
+    destruct qs as [|q qs]; [apply rpar_terminator|].
+    rewrite spaced_cons. cbn [app terminator_ok]. split.
+    - unfold is_token_delimiter. rewrite blank_sp, orb_true_r. reflexivity.
+    - split; discriminate.
+  Qed.
+
+  Lemma read_elems_spaced : forall ts Us, Forall2 word_reads ts Us ->
+    forall rest fuel, (length (spaced ts ++ c_rpar :: rest) <= fuel)%nat ->
+    read_elems lws fuel (spaced ts ++ c_rpar :: rest) = EOk Us rest.
+  Proof.
+    induction 1 as [|t U ts Us Ht _ IH]; intros rest fuel Hf.
+    - cbn [spaced flat_map app] in *. destruct fuel; [cbn in Hf; lia|]. apply read_elems_end.
+    - rewrite spaced_cons in *. cbn [app] in *. rewrite read_elems_sp.
+      destruct fuel; [cbn in Hf; lia|]. rewrite <- app_assoc in *.
+      rewrite (read_elems_word fuel t U) by (try assumption; apply spaced_rpar_terminator).
+      rewrite IH; [reflexivity|]. cbn [length] in Hf. rewrite app_length in Hf. lia.
+  Qed.
+
+  Lemma read_elems_body ts Us rest :
+    Forall2 word_reads ts Us ->
+    read_elems lws (S (length (array_body ts ++ c_rpar :: rest))) (array_body ts ++ c_rpar :: rest)
+    = EOk Us rest.
+  Proof.
+    intros H. destruct H as [|t U ts Us Ht Hts]; [apply read_elems_end|].
+    cbn [array_body]. rewrite <- app_assoc.
+    rewrite (read_elems_word _ t U) by (try assumption; apply spaced_rpar_terminator).
+    rewrite (read_elems_spaced ts Us Hts); [reflexivity|].
+    rewrite (app_length t). destruct Ht as [Hs _]. destruct t; [contradiction|]. cbn [length]. lia.
+  Qed.
+
+  Lemma run_array_line_multi name ts fs rest :
+    simple_word name = true -> Forall2 multi_word ts fs ->
+    run_array_line lws (name ++ c_eq :: c_lpar :: array_body ts ++ c_rpar :: rest)
+    = AOk name (map OField fs) rest.
+  Proof.
+    intros Hn Hts. destruct (multi_words_units ts fs Hts) as [Us [HU HM]].
+    pose proof (simple_word_reads name Hn) as [Hs Hl].
+    unfold run_array_line.
+    rewrite (skip_blanks_start name) by assumption.
+    rewrite Hl. cbn [app]. rewrite (lex_lit c_eq) by apply lit_char_eq.
+    assert (Hstop : forall x, lex MUnq (c_lpar :: x) = LWord [] (c_lpar :: x)).
+    { intros x. apply lex_stop. cbn. repeat split; discriminate. }
+    rewrite Hstop. cbn [cons_u]. rewrite cons_all_word.
+    rewrite as_assign_word by assumption. rewrite N.eqb_refl.
+    rewrite (read_elems_body ts Us rest HU). rewrite HM. reflexivity.
+  Qed.
 End Reader.
 
 (* ===================================================================== *)
@@ -1238,12 +1433,31 @@ Section Main.
       rewrite H1, H2. cbn [orb]. apply split_eq_lits_none. apply bare_no_eq; assumption.
   Qed.
 
+  Lemma quote_pair_decl_word n v :
+    decl_word lws (quote qws n ++ c_eq :: quote qws v) (n ++ c_eq :: v).
+  Proof.
+    pose proof (quote_reads_as n) as Hn. pose proof (quote_reads_as v) as Hv.
+    destruct (str_needs_quoting qws n) eqn:E.
+    - apply decl_pair_quoted; try assumption.
+      unfold quote, quote_shape. rewrite E. cbn [negb].
+      destruct (negb (mem c_sq n)); cbn [render units_of]; rewrite N.eqb_refl;
+        [reflexivity | change (N.eqb c_dq c_sq) with false; reflexivity].
+    - assert (Eq : quote qws n = n) by (unfold quote, quote_shape; rewrite E; reflexivity).
+      rewrite Eq in *. apply decl_pair_bare; try assumption; [|apply bare_no_eq; assumption].
+      destruct n as [|c t]; [discriminate|].
+      pose proof (bare_inert qws lws Hsub (c :: t) E) as Hi.
+      pose proof (inert_plain lws _ Hi) as Hp. cbn [forallb] in Hp. apply andb_true_iff in Hp.
+      destruct Hp as [Hc _]. destruct (plain_char_facts lws c Hc) as (_ & H1 & H2 & _).
+      unfold units_of. rewrite H1, H2. reflexivity.
+  Qed.
+
   Lemma operand_decl_word o :
     operand_ok o = true -> decl_word lws (operand_text qws o) (operand_field o).
   Proof.
-    destruct o as [s | n v]; cbn [operand_ok operand_text operand_field]; intros H.
+    destruct o as [s | n v | n v]; cbn [operand_ok operand_text operand_field]; intros H.
     - apply quote_decl_word.
     - apply assign_decl_word; [assumption | assumption | apply quote_reads_as].
+    - apply quote_pair_decl_word.
   Qed.
 
   Lemma decl_line_lemma d os rest :
@@ -1257,6 +1471,31 @@ Section Main.
     cbn [forallb] in Hos. apply andb_true_iff in Hos. destruct Hos as [Ho Hos].
     constructor; [apply operand_decl_word; assumption | apply IH; assumption].
   Qed.
+
+  (* the units of a quoted word: never a tilde expansion, never a pattern *)
+  Lemma quote_units_lemma s :
+    exists U,
+      (forall rest, terminator_ok lws rest -> lex lws MUnq (quote qws s ++ rest) = LWord U rest)
+      /\ tilde_front U = false /\ tilde_everywhere U = false
+      /\ glob_active U = false /\ strip U = s.
+  Proof.
+    pose proof (quote_reads_as s) as Hq.
+    destruct (units_facts lws (quote qws s) s Hq) as [H1 H2 H3 H4 H5 H6 H7].
+    exists (units_of (quote qws s) s). repeat split; try assumption.
+    - intros rest Hr. rewrite (lex_spec lws _ _ Hq), (lex_stop lws Hok) by assumption.
+      rewrite cons_all_word, app_nil_r. reflexivity.
+    - apply H2.
+    - unfold tilde_everywhere. rewrite H2, H3. reflexivity.
+  Qed.
+
+  Lemma quotes_multi vs : Forall2 (multi_word lws) (map (quote qws) vs) vs.
+  Proof. induction vs; constructor; [apply quote_multi_word | assumption]. Qed.
+
+  Lemma array_line_lemma name vs rest :
+    simple_word name = true ->
+    run_array_line lws (name ++ c_eq :: c_lpar :: array_body (map (quote qws) vs) ++ c_rpar :: rest)
+    = AOk name (map OField vs) rest.
+  Proof. intros Hn. apply run_array_line_multi; try assumption. apply quotes_multi. Qed.
 
   Lemma quote_injective_lemma s1 s2 : quote qws s1 = quote qws s2 -> s1 = s2.
   Proof.
